@@ -358,7 +358,8 @@ def run(inp, out, stride, offset):
             m['checks'] = {}
             for c in checks_for(m):
                 r = subprocess.run(['./check', c, '--tier', 'quick'], cwd=verif,
-                                   env=dict(os.environ, DD_REPO=d), capture_output=True, text=True)
+                                   env=dict(os.environ, DD_REPO=d, VERIF_EVIDENCE_DIR=os.path.join(d, '.evidence')),
+                                   capture_output=True, text=True)
                 what = [l.strip() for l in r.stdout.splitlines() if l.strip().startswith('what:')]
                 m['checks'][c] = dict(exit=r.returncode, what=what[:2])
                 if r.returncode == 1:
